@@ -576,7 +576,7 @@ CURRENT_TIER = {"v": "quick"}
 
 
 def write_replay_file(prop, q, tag, extra_defs, inputs, why):
-    d = os.path.join(VERIF, "replays", prop)
+    d = os.path.join(os.environ.get("VERIF_REPLAY_DIR") or os.path.join(VERIF, "replays"), prop)
     os.makedirs(d, exist_ok=True)
     p = os.path.join(d, "%s.%s.in" % (q.name, tag))
     with open(p, "w") as f:
@@ -896,8 +896,9 @@ def check_property(prop, tier, only=None, keep=False):
         "wall_s": round(time.time() - t0, 2),
         "violations": len(violations),
     }
-    os.makedirs(os.path.join(VERIF, "evidence"), exist_ok=True)
-    with open(os.path.join(VERIF, "evidence", prop + ".json"), "w") as f:
+    evdir = os.environ.get("VERIF_EVIDENCE_DIR") or os.path.join(VERIF, "evidence")
+    os.makedirs(evdir, exist_ok=True)
+    with open(os.path.join(evdir, prop + ".json"), "w") as f:
         json.dump(ev, f, indent=1, default=str)
     say("SUMMARY property=%s tier=%s queries=%d runs=%d passed_main=%d nontrivial=%d violations=%d inconclusive=%d unusable=%d wall=%.0fs" % (
         prop, tier, len(queries), len(results), len(passed_main), len(nontrivial), len(violations),
